@@ -124,7 +124,8 @@ def fee_withdraw(R, env, prog, sites, RULE):
         from engine.analysis import forms as _forms, ok_payload as _okp
         # (`treasury.ok_or(err)?`, `.as_ref()`, a helper that unwraps it ... all carry the treasury's payload)
         to_forms = ([f for f in _forms(prog, to, 2)] + ([_okp(to[1])] if to[0] == "payload" else [])) if to is not None else []
-        R.ob(RULE, "FeeWithdraw:payout-amount", amt is not None and amount(amt), "payout carries %s, expected the requested amount" % fmt(amt or ("none",))[:120], loc=loc, fn=hk)
+        # (the amount may come back from a helper: `state.take_fees(amount).ok_or(..)?` handing back what it deducted)
+        R.ob(RULE, "FeeWithdraw:payout-amount", amt is not None and shared.via_forms(prog, amount, 3)(amt), "payout carries %s, expected the requested amount" % fmt(amt or ("none",))[:120], loc=loc, fn=hk)
         R.ob(RULE, "FeeWithdraw:payout-denom", ibc_denom(prog, den), "payout denom %s" % fmt(den or ("none",))[:80], loc=loc, fn=hk)
         R.ob(RULE, "FeeWithdraw:payee-is-treasury", to is not None and any(f[0] == "payload" and tp(f[1]) for f in to_forms), "fees go to %s, expected the configured treasury" % fmt(to or ("none",))[:120], loc=loc, fn=hk)
     rem, n = world_edges(h, tp, False)
